@@ -39,6 +39,42 @@ def gen_tags_case(rng, tier):
                   read_len=rng.choice([(100, 300), (150, 600), (300, 1200)]), cuts=rng.choice([0, 0, 1, 2]))
     samples = w["samples"]
     chroms = [c["name"] for c in w["chroms"]]
+    bx_cutoff = None
+    if rng.random() < 0.3:
+        # linked reads: a molecule = 2-3 reads of one haplotype that start within cutoff/2 of each other and share a
+        # barcode; the same barcode is reused by other molecules (any haplotype) that lie more than the cutoff away,
+        # which haplotag documents as different read clouds
+        bx_cutoff = rng.choice([120, 200, 350])
+        reads = sorted(w["libs"]["L0"]["reads"], key=lambda r: (r["sample"], r["chrom"], r["start"], r["name"]))
+        used = set()
+        barcodes = {}  # (sample, chrom) -> list of [barcode, last start of its latest molecule]
+        nbar = 0
+        for i, r in enumerate(reads):
+            if i in used or rng.random() < 0.4:
+                continue
+            mol = [i]
+            for j in range(i + 1, len(reads)):
+                q = reads[j]
+                if (q["sample"], q["chrom"]) != (r["sample"], r["chrom"]) or q["start"] - r["start"] > bx_cutoff // 2:
+                    break
+                if j not in used and q["hap"] == r["hap"] and len(mol) < 3:
+                    mol.append(j)
+            lo = reads[mol[0]]["start"]
+            hi = max(reads[k]["start"] for k in mol)
+            key = (r["sample"], r["chrom"])
+            bc = None
+            for ent in barcodes.setdefault(key, []):
+                if lo - ent[1] > bx_cutoff + 20 and rng.random() < 0.7:
+                    bc = ent
+                    break
+            if bc is None:
+                nbar += 1
+                bc = ["BX%04d-1" % nbar, hi]
+                barcodes[key].append(bc)
+            bc[1] = hi
+            for k in mol:
+                used.add(k)
+                reads[k]["tags"] = [["BX", bc[0]]]
     ops = [{"op": "phase", "lib": "L0", "tag": rng.choice(["PS", "PS", "HP"])}]
     if rng.random() < 0.25:
         # the phased VCF that tags the reads is itself only partially phased
@@ -58,6 +94,8 @@ def gen_tags_case(rng, tier):
         hopts["noref"] = True
     if rng.random() < 0.2:
         hopts["ignore_linked_read"] = True
+    if bx_cutoff is not None:
+        hopts["linked_read_distance_cutoff"] = bx_cutoff
     if len(samples) > 1 and rng.random() < 0.25:
         hopts["given_samples"] = [rng.choice(samples)]
     if rng.random() < 0.25:
@@ -80,7 +118,7 @@ def gen_tags_case(rng, tier):
     if rng.random() < 0.1:
         popts["only_indels"] = True
     ops.append({"op": "haplotagphase", "opts": popts})
-    return {"machine": "tags", "world": W.clean_world(w), "ops": ops, "knobs": {"depth": depth, "kinds": kinds}}
+    return {"machine": "tags", "world": W.clean_world(w), "ops": ops, "knobs": {"depth": depth, "kinds": kinds, "bx_cutoff": bx_cutoff}}
 
 
 def render_vstar(world, path, tag, nsets, salt, ps_ids):
@@ -209,10 +247,17 @@ class TagsRun:
             return
         # read extents per sample as aligned (for the proviso)
         extents = {}
+        clouds = {}
         with pysam.AlignmentFile(bam) as af:
             for a in af:
                 s = a.get_tag("RG")[3:]
-                extents.setdefault((a.reference_name, s), []).append((a.reference_start, a.reference_end, a.query_name))
+                bx = a.get_tag("BX") if a.has_tag("BX") else None
+                extents.setdefault((a.reference_name, s), []).append((a.reference_start, a.reference_end, a.query_name, bx))
+                if bx is not None:
+                    clouds.setdefault((a.reference_name, s, bx), []).append((a.reference_start, a.reference_end))
+        self.clouds = clouds
+        self.linked = not ops["haplotag"].get("opts", {}).get("ignore_linked_read", False)
+        self.cutoff = ops["haplotag"].get("opts", {}).get("linked_read_distance_cutoff", 50000)
 
         # 1. phase -> V*
         vstar = os.path.join(d, "vstar.vcf")
@@ -264,6 +309,8 @@ class TagsRun:
         pysam.index(tagged)
         for k in hopts:
             self.stats.inc("haplotag_opt_" + k)
+        if any(r.get("tags") for r in w["libs"]["L0"]["reads"]):
+            self.stats.inc("pipelines_with_linked_reads")
         current_bam = tagged
         tags1 = self.read_tags(tagged)
         self.log.add("tags", sorted(tags1.items()))
@@ -275,7 +322,18 @@ class TagsRun:
             pysam.index(tagged2)
             tags2 = self.read_tags(tagged2)
             self.stats.inc("retagged")
-            if tags1 != tags2:
+            multi_set_cloud = False
+            if self.linked:
+                for (cc, ss, bx), spans in self.clouds.items():
+                    ids = {ps for (c3, s3, q), (ps, al) in dstar.items() if c3 == cc and s3 == ss and any(x <= q < y for (x, y) in spans)}
+                    if len(ids) > 1:
+                        multi_set_cloud = True
+                        break
+            if multi_set_cloud:
+                # a cloud that supports two phase sets equally is assigned by a tie-break over a set of Read objects
+                # (hashed by address): not comparable between two runs, and outside what C17 states
+                self.stats.inc("retag_not_compared_multi_set_cloud")
+            elif tags1 != tags2:
                 k = sorted(set(tags1) | set(tags2))
                 dk = [x for x in k if tags1.get(x) != tags2.get(x)][0]
                 self.add("retag-differs", "haplotagging the tagged BAM again changed the tags of read %s from %r to %r" % (dk, tags1.get(dk), tags2.get(dk)), "retag-differs")
@@ -348,9 +406,14 @@ class TagsRun:
             c, s, p = k3
             # proviso: a covering read overlaps two different phase sets of V*
             excluded = False
-            for (a, b, name) in extents.get((c, s), []):
+            for (a, b, name, bx) in extents.get((c, s), []):
                 if a <= p < b:
-                    ids = {ps for (q, ps) in sets_by_cs.get((c, s), []) if a <= q < b}
+                    # haplotag assigns a read cloud (reads with the same barcode whose starts lie within the cut-off) as
+                    # one unit: the proviso "no read overlaps two phase sets" is applied to the cloud the read belongs to
+                    spans = [(a, b)]
+                    if bx is not None and self.linked:
+                        spans = [(x, y) for (x, y) in self.clouds.get((c, s, bx), []) if abs(x - a) <= 2 * self.cutoff + 50]
+                    ids = {ps for (q, ps) in sets_by_cs.get((c, s), []) if any(x <= q < y for (x, y) in spans)}
                     if len(ids) > 1:
                         excluded = True
                         break
